@@ -31,13 +31,14 @@ def strip(ev):
 
 
 
-def reproduce_with_history(chk, drive, evs, ev, why, module, cfg, heap, timeout=6000, pre=None):
+def reproduce_with_history(chk, drive, evs, ev, why, module, cfg, heap, timeout=6000, pre=None, base_env=None):
     """The rejection of ev is not reproducible alone: replay everything the original process had run up to it (same projections, so the same
     allocation pattern) in a fresh process and validate only ev (preceded by the events `pre` of its own pair, if any). State kept in
     sync.Pool-like caches is dropped by the garbage collector, so a second attempt runs with GOGC=off. Returns the replay object or None."""
     prefix = [strip(e) for e in evs if e["i"] <= ev["i"]]
     npre = len(pre or [])
-    for attempt, env in enumerate((None, {"GOGC": "off"}, {"GOGC": "off", "GOMAXPROCS": "1"})):
+    for attempt, extra in enumerate((None, {"GOGC": "off"}, {"GOGC": "off", "GOMAXPROCS": "1"})):
+        env = dict(base_env or {}, **(extra or {})) or None
         sub = vlib.run_drive(drive, prefix, chk.work, name="repro-prefix", env=env)
         tail = [e for e in sub if pre and e["i"] in {x["i"] for x in pre}] + sub[-1:]
         _, bad3, _, _ = vlib.validate_traces(chk.work, module, cfg, [tail], heap=heap, timeout=timeout)
@@ -75,9 +76,29 @@ def error_path_jobs(evs, n):
     return out
 
 
-def judge(chk, drive, jobs, module, cfg, nshards, tags_wanted, shard_key=None, heap="3g", describe=None, timeout=3000, pairs=40):
+ENVS = [{"GOMAXPROCS": "1"}, {"GOMAXPROCS": "3"}, {"GOMAXPROCS": "7"}, {"GOMAXPROCS": "128"}]     # 128: more processors than any symbol has blocks
+
+
+def env_subset(evs, n):
+    """jobs for the environment stage: an even spread of the accepted calls plus the largest symbols (most blocks / most work to split)"""
+    enc = [e for e in evs if e.get("op") == "encode" and e.get("res", {}).get("kind") == "ok"]
+    if not enc:
+        return []
+    spread = enc[::max(1, len(enc) // n)][:n]
+    big = []
+    for sym in sorted({e["sym"] for e in enc}):          # the largest symbols of every family (most blocks / most work to split among workers)
+        big += sorted((e for e in enc if e["sym"] == sym), key=lambda e: -(e["res"].get("w", 0) * e["res"].get("hh", 1)))[:4]
+    seen, out = set(), []
+    for e in spread + big:
+        if e["i"] not in seen:
+            seen.add(e["i"])
+            out.append(strip(e))
+    return out
+
+
+def judge(chk, drive, jobs, module, cfg, nshards, tags_wanted, shard_key=None, heap="3g", describe=None, timeout=3000, pairs=40, env=None, envs=60):
     """Runs jobs, validates events, reports reproduced bad tags selected by tags_wanted(ev, tag). Returns (events, extras)."""
-    evs = vlib.run_drive(drive, jobs, chk.work)
+    evs = vlib.run_drive(drive, jobs, chk.work, env=env)
     shards = vlib.shard([e for e in evs if e.get("op") != "poke"], nshards, key=shard_key)      # a "poke" carries no observation (see cmd/drive)
     acc, bad, st, tr, extras = vlib.validate_traces(chk.work, module, cfg, shards, timeout=timeout, heap=heap, want_extra=True)
     chk.cov["states"] += st
@@ -104,7 +125,7 @@ def judge(chk, drive, jobs, module, cfg, nshards, tags_wanted, shard_key=None, h
                     owners.append(None)
             rjobs.append(strip(ev))
             owners.append((k, b["why"]))
-        sub = vlib.run_drive(drive, rjobs, chk.work, name="repro")
+        sub = vlib.run_drive(drive, rjobs, chk.work, name="repro", env=env)
         _, bad2, _, _ = vlib.validate_traces(chk.work, module, cfg, [sub], heap=heap, timeout=timeout)
         got = {(b["l"], b["why"]) for b in bad2}
         for idx, own in enumerate(owners):
@@ -115,7 +136,7 @@ def judge(chk, drive, jobs, module, cfg, nshards, tags_wanted, shard_key=None, h
                 # not reproducible alone: the defect may depend on the calls made before it in the same process (shared caches).
                 # Replay the whole prefix of the original run in a fresh process and validate only the event in question.
                 ev0 = reps[k]["event"]
-                rp = reproduce_with_history(chk, drive, evs, ev0, why, module, cfg, heap, timeout)
+                rp = reproduce_with_history(chk, drive, evs, ev0, why, module, cfg, heap, timeout, base_env=env)
                 if rp is None:
                     raise vlib.Inconclusive("unreproduced rejection: %s" % k)
                 chk.report(k + " (history-dependent)", "%s: only after the %d calls made before it in the same process" % (k, len(rp["jobs"]) - 1), rp)
@@ -123,12 +144,19 @@ def judge(chk, drive, jobs, module, cfg, nshards, tags_wanted, shard_key=None, h
                 continue
             ev = sub[idx]
             what = describe(ev, why) if describe else "%s: content=%r -> %s" % (k, bytes(ev["content"])[:40], why)
-            chk.report(k, what, dict(jobs=rjobs[max(0, idx - 1):idx + 1] if why.startswith("pattern-depends") else [rjobs[idx]], expect=why))
+            chk.report(k + (" under %s" % env if env else ""), what + (" (environment %s)" % env if env else ""),
+                       dict(jobs=rjobs[max(0, idx - 1):idx + 1] if why.startswith("pattern-depends") else [rjobs[idx]], expect=why, env=env or {}))
     if pairs:
         pj = error_path_jobs(evs, pairs)
         if pj:
-            pevs, _ = judge(chk, drive, pj, module, cfg, max(1, nshards // 4), tags_wanted, shard_key=shard_key, heap=heap, describe=describe, timeout=timeout, pairs=0)
+            pevs, _ = judge(chk, drive, pj, module, cfg, max(1, nshards // 4), tags_wanted, shard_key=shard_key, heap=heap, describe=describe, timeout=timeout, pairs=0, envs=0)
             chk.cov["refused_then_accepted_pairs"] = chk.cov.get("refused_then_accepted_pairs", 0) + len(pevs) // 2
+    if envs and env is None:
+        # environment stage: the result of a call must not depend on how many processors the runtime may use (worker pools sized from GOMAXPROCS)
+        sub = env_subset(evs, envs)
+        for e in ENVS:
+            eevs, _ = judge(chk, drive, sub, module, cfg, max(1, nshards // 4), tags_wanted, shard_key=shard_key, heap=heap, describe=describe, timeout=timeout, pairs=0, env=e, envs=0)
+        chk.cov["environments"] = dict(gomaxprocs=[e["GOMAXPROCS"] for e in ENVS], calls_each=len(sub))
     return evs, extras
 
 
@@ -143,9 +171,9 @@ def module_of(ev):
     return FAMILY.get(ev.get("sym"), "Trace1D")
 
 
-def judge_multi(chk, drive, jobs, tags_wanted, nshards=14, describe=None, timeout=6000, pairs=40):
+def judge_multi(chk, drive, jobs, tags_wanted, nshards=14, describe=None, timeout=6000, pairs=40, env=None, envs=60):
     """Like judge, for job lists that mix symbologies: events are routed to their family's trace specification."""
-    evs = vlib.run_drive(drive, jobs, chk.work)
+    evs = vlib.run_drive(drive, jobs, chk.work, env=env)
     byfam = {}
     for e in evs:
         if e.get("op") != "poke":          # a "poke" carries no observation (see cmd/drive): only the calls after it are judged
@@ -178,23 +206,28 @@ def judge_multi(chk, drive, jobs, tags_wanted, nshards=14, describe=None, timeou
                     (b["why"] == "auto-not-minimal" or (e.get("p") == ev.get("p") and base_api(e.get("api", "")) == base_api(ev.get("api", ""))))]
             rjobs += [strip(e) for e in (prev[:1] if b["why"].startswith("pattern") else [e for e in prev if e["p"][1:2] == [0]][:1])]
         rjobs.append(strip(ev))
-        sub = vlib.run_drive(drive, rjobs, chk.work, name="repro")
+        sub = vlib.run_drive(drive, rjobs, chk.work, name="repro", env=env)
         _, bad2, _, _ = vlib.validate_traces(chk.work, mod, mod + ".cfg", [sub], heap=HEAP[mod], timeout=timeout)
         if (len(rjobs), b["why"]) not in {(x["l"], x["why"]) for x in bad2}:
             # not reproducible alone: state shared by the calls made before it in the same process. Replay the whole prefix of the original
             # run (all families) in a fresh process and validate only the event in question.
-            rp = reproduce_with_history(chk, drive, evs, ev, b["why"], mod, mod + ".cfg", HEAP[mod], timeout)
+            rp = reproduce_with_history(chk, drive, evs, ev, b["why"], mod, mod + ".cfg", HEAP[mod], timeout, base_env=env)
             if rp is None:
                 raise vlib.Inconclusive("unreproduced rejection: %s" % k)
             chk.report(k + " (history-dependent)", "%s: only after the %d calls made before it in the same process" % (k, len(rp["jobs"]) - 1), rp)
             continue
         what = describe(sub[-1], b["why"]) if describe else "%s: content=%r -> %s" % (k, bytes(ev["content"])[:40], b["why"])
-        chk.report(k, what, dict(jobs=rjobs, expect=b["why"], module=mod))
+        chk.report(k + (" under %s" % env if env else ""), what + (" (environment %s)" % env if env else ""), dict(jobs=rjobs, expect=b["why"], module=mod, env=env or {}))
     if pairs:
         pj = error_path_jobs(evs, pairs)
         if pj:
-            pevs, _ = judge_multi(chk, drive, pj, tags_wanted, nshards=max(2, nshards // 4), describe=describe, timeout=timeout, pairs=0)
+            pevs, _ = judge_multi(chk, drive, pj, tags_wanted, nshards=max(2, nshards // 4), describe=describe, timeout=timeout, pairs=0, envs=0)
             chk.cov["refused_then_accepted_pairs"] = chk.cov.get("refused_then_accepted_pairs", 0) + len(pevs) // 2
+    if envs and env is None:
+        sub = env_subset(evs, envs)
+        for e in ENVS:
+            judge_multi(chk, drive, sub, tags_wanted, nshards=max(2, nshards // 4), describe=describe, timeout=timeout, pairs=0, env=e, envs=0)
+        chk.cov["environments"] = dict(gomaxprocs=[e["GOMAXPROCS"] for e in ENVS], calls_each=len(sub))
     return evs, allextras
 
 
@@ -277,6 +310,12 @@ def c128_jobs(rng, quick):
             named = {"s8": "gray", "s16": "gray16", "s24": "rgba"}
             if "name" in j["scheme"]:
                 j["scheme"]["model"] = named[j["scheme"]["name"]]
+    # the most symbols a content can need: a code-set switch before every character (80 characters -> start + 80 switches + 80 data characters)
+    for n in (76, 77, 78, 79, 80):
+        for unit in ("\x01a", "a\x01", "\x02~", "z\x1f"):
+            t = (unit * 41)[:n]
+            add(t)
+            add(t, api="EncodeWithoutChecksum")
     # boundary lengths and invalid runes
     add("")
     add("A" * 80)
@@ -336,6 +375,16 @@ def ean_jobs(rng, quick):
             for ch in ["A", " ", "/", ":", "\x00", "B"]:
                 add(base[:pos] + ch + base[pos + 1:])
             add(U(base[:pos]) + [0xb2] + U(base[pos + 1:]))
+    for n in (8, 13):            # a non-digit somewhere AND a neighbour of the digits ('/' = '0' - 1, ':' = '9' + 1) or another non-digit in the check position
+        for _ in range(6 if quick else 40):
+            base = rnd(n)
+            pos = rng.randrange(n - 1)
+            for last in "/:@ A":
+                for ch in "A/: x":
+                    add(base[:pos] + ch + base[pos + 1:n - 1] + last)
+    add("file:///")
+    add("////////")
+    add("::::::::")
     add(U("123456") + [0xc3, 0xa9])          # 8 bytes, multi-byte rune
     add(U("12345") + [0xd9, 0xa1])           # 7 bytes with an Arabic-Indic digit
     add(U("1234567891") + [0xef, 0xbc, 0x91])
